@@ -388,8 +388,10 @@ def plan (S : PrintPrec) (e : Expr) (enc : Nat) : Except CErr (List (Expr × Nat
   | .const _ | .var _ => pure []
   | .call (.var _) as => pure (as.map (·, S.none))
   | .call f as => pure ((f, S.call) :: as.map (·, S.none))
-  | .subscript a (.tuple cs) => pure ((a, S.call) :: cs.map (·, S.none))
-  | .subscript a i => pure [(a, S.call), (i, S.none)]
+  -- `map_subscript` prints the INDEX first (`index_str = …` is assigned before the aggregate is
+  -- printed inside the returned expression): wrappers in the index get the earlier names
+  | .subscript a (.tuple cs) => pure (cs.map (·, S.none) ++ [(a, S.call)])
+  | .subscript a i => pure [(i, S.none), (a, S.call)]
   | .lookup a _ => pure [(a, S.call)]
   | .nary .sum cs => sumPlan S cs
   | .nary .prod cs => pure (cs.map (·, S.product))
@@ -437,9 +439,12 @@ def assemble (S : PrintPrec) (rev : Bool) (e : Expr) (enc : Nat) (ds : List Doc)
   | .var x, _ => pure (.var x)
   | .call (.var f) _, args => pure (.atom (f ++ "(" ++ joinText ", " args ++ ")"))
   | .call _ _, f :: args => pure (.atom (f.render ++ "(" ++ joinText ", " args ++ ")"))
-  | .subscript _ (.tuple _), a :: idx =>
-      pure (atomIf (a.render ++ "[" ++ joinText ", " idx ++ "]") enc S.call)
-  | .subscript _ _, [a, i] => pure (atomIf (a.render ++ "[" ++ i.render ++ "]") enc S.call)
+  | .subscript _ (.tuple _), ds =>
+      match ds.reverse with
+      | a :: ridx =>
+        pure (atomIf (a.render ++ "[" ++ joinText ", " ridx.reverse ++ "]") enc S.call)
+      | [] => throw .noClaim
+  | .subscript _ _, [i, a] => pure (atomIf (a.render ++ "[" ++ i.render ++ "]") enc S.call)
   | .lookup _ n, [a] => pure (atomIf (a.render ++ "." ++ n) enc S.call)
   | .nary .sum cs, ds =>
       let (ps, ns) := sumSplit cs ds
